@@ -460,7 +460,7 @@ class Endpoint:
             # null-TLS marker handshake (vlib.nulltls): answer with an identity valid for the dialled host
             from . import nulltls
 
-            host = str(sock.addr[0]).strip("[]").lower()
+            host = str(sock.state.get("tunnel_host") or sock.addr[0]).strip("[]").lower()  # inside a CONNECT tunnel: the destination
             is_ip = ":" in host or host.replace(".", "").isdigit()
             ident = nulltls.Identity([("IP Address" if is_ip else "DNS", host)], label="endpoint")
             sock.state.setdefault("tls_hellos", []).append(data)
